@@ -80,7 +80,10 @@ LINES = [b'*IDN?', b'describe', b'read m:value', b'change m:target 3', b'change 
          b'change m:target NaN', b'change m:target 1e999', b'logging m "debug"', b'logging m "nolevel"', b'logging . "off"',
          b'\xff\xfe', b'read \xff', b'change m:target "\xc3"', b'request x', b'_ident', b'help', b'error_read m', b'\tread m:value',
          b'read  m:value', b'read m:value\r', b'READ m:value', b'x' * 300, b'change m:_text "' + b'\\u00e9\\ud800' + b'"',
-         b'change m:_text "\xc3\xa9"', b'do m:_twice 2 3', b'describe .', b'describe x']
+         b'change m:_text "\xc3\xa9"', b'do m:_twice 2 3', b'describe .', b'describe x',
+         # strings the JSON decoder accepts but UTF-8 cannot carry unescaped (lone surrogates), and ordinary non-ASCII text
+         b'change m:_label "\\ud83d"', b'change m:_label "a\\udc00b"', b'change m:_label "\\u00e9\\u03a9"', b'change m:_label "\xc2\xb5"',
+         b'read m:_label', b'change m:_label "\\ud83d\\ude00"']
 
 
 def _node():
@@ -92,6 +95,7 @@ def _node():
         value = Parameter('v', FloatRange(0, 10), default=1)
         target = Parameter('t', FloatRange(0, 10), default=1)
         text = Parameter('s', StringType(), default='', readonly=False)
+        label = Parameter('any unicode text', StringType(isUTF8=True), default='', readonly=False)
 
         def read_value(self):
             return self.target
@@ -176,8 +180,11 @@ def gen_handle(tier, rng):
         for eol in (b'\n', b'\r\n') if tier != 'quick' or len(seq) == 1 else (b'\n',):
             stream = b''.join(l + eol for l in seq) + rng.choice([b'', b'partial'])
             href, _t, ref, _a = _serve([stream])
-            href.handle()
-            reference = _norm(ref)
+            try:
+                href.handle()
+                reference = _norm(ref)
+            except Exception as e:      # the handler died on the unchunked stream: every case of this stream reports it (never-raises)
+                reference = [f'the request loop raised {type(e).__name__} on the unchunked stream']
             segs = list(_segmentations(stream, rng, tier))
             if len(stream) > 40:
                 segs = segs[:2] + rng.sample(segs[2:], min(len(segs) - 2, 6 if tier == 'quick' else 30))
@@ -188,7 +195,20 @@ def gen_handle(tier, rng):
                                    'wire_out': h.request.sent, 'reference': reference})
 
 
+def gen_codec(tier, rng):
+    """message triples: actions x specifiers {None, '', 'm', 'm:p'} x JSON data (None, numbers, nested lists / objects, strings with
+    ASCII, non-ASCII, control characters, escapes, lone and paired surrogates as json.loads produces them)"""
+    strings = ['', 'a b', '\u00e9\u03a9\u00b5', '\ud83d', 'a\udc00b', '\U0001f600', 'q"\\', 'line\nbreak', '\x00\x1f', ' lead', 'trail ']
+    datas = [None, 0, 1.5, True, [], {}, [1, [2, {'a': None}]], {'k': 'v', 't': 1.5}] + strings + [[s, {'t': 1.0}] for s in strings] + \
+        [{s: s} for s in strings if s]
+    for action in ('update', 'reply', 'error_read', 'pong'):
+        for spec in (None, '', 'm', 'm:p'):
+            for data in datas:
+                yield dict(label=f'{action} {spec!r} {data!r}', self=None, args={'action': action, 'specifier': spec, 'data': data})
+
+
 GENS = {
+    'encode_msg_frame': gen_codec,
     'get_msg': gen_get_msg,
     'TCPRequestHandler.ingest': gen_framing('ingest'),
     'TCPRequestHandler.next_message': gen_framing('next_message'),
